@@ -100,8 +100,7 @@ fn run_property(prop: &str, tier: Tier, rep: &mut Report) -> Plan {
             Plan { rule: input_rule, assumptions: vec![TRUST, BOUND_INPUT, "cryptographic strength of ECDSA / Ed25519 is not examined"] }
         }
         "C02" => {
-            let cases = input::structural_cases(tier);
-            input::run_cases(&cases, rep, |_| true);
+            input::for_each_structural_chunk(tier, |cases| input::run_cases(&cases, rep, |_| true));
             rep.stats.exhaustive = true;
             rep.require_class("accept/ref-accept");
             for r in [
@@ -132,8 +131,7 @@ fn run_property(prop: &str, tier: Tier, rep: &mut Report) -> Plan {
             Plan { rule: "all byte strings / texts up to the reported length, every C02 case, every transition of the HIST graph; every accessor swept on every record handed out; oracle = no unwinding panic", assumptions: vec![TRUST, "overflow checks and debug assertions are on for enr, alloy-rlp, bytes, base64, hex", "UB that does not trap is not monitored"] }
         }
         "C04" => {
-            let cases = input::structural_cases(tier);
-            input::run_cases(&cases, rep, |_| false);
+            input::for_each_structural_chunk(tier, |cases| input::run_cases(&cases, rep, |_| false));
             if !b {
                 run_hist(tier, &["k256", "libsecp", "ed", "comb-secp"], true, rep);
             }
@@ -215,8 +213,7 @@ fn run_property(prop: &str, tier: Tier, rep: &mut Report) -> Plan {
             Plan { rule: "every state of the HIST graph, every accepted C02 case, edge-case scalars for all key types; expected id = own keccak256 over the independently derived uncompressed key", assumptions: vec![TRUST, BOUND_HIST] }
         }
         "C11" => {
-            let cases = input::structural_cases(tier);
-            input::run_cases(&cases, rep, |_| false);
+            input::for_each_structural_chunk(tier, |cases| input::run_cases(&cases, rep, |_| false));
             let cases = input::authenticity_cases(tier);
             input::run_cases(&cases, rep, |_| false);
             if !b {
